@@ -48,6 +48,7 @@ int main(int argc, char **argv) {
     int f = digit(hist, step, nsteps), tr = digit(transv, step < ndigits(transv) ? step : ndigits(transv) - 1, ndigits(transv));
     opt.Fact = f == 1 ? DOFACT : f == 2 ? SamePattern : f == 3 ? SamePattern_SameRowPerm : FACTORED;
     opt.Trans = tr == 1 ? NOTRANS : tr == 2 ? TRANS : CONJ;
+    if (step > 0 && (f == 1 || f == 2) && haveLU) { Destroy_SuperNode_Matrix(&L); Destroy_CompCol_Matrix(&U); haveLU = 0; }   /* documented protocol (EXAMPLE/dlinsolx2.c): the caller releases L, U before a fresh or SamePattern factorization */
     if (step > 0 && f != 4) {   /* new values on the same pattern */
       int_t k = 0; for (int j = 0; j < n; j++) for (int i = 0; i < n; i++) if (S.D.nz[i][j]) { if ((symcols >> j) & 1) { snprintf(nm, sizeof nm, "a%d_%d_%d", step, i, j); S.val[k] = e_sym(nm); }
 #if IS_COMPLEX
